@@ -114,3 +114,75 @@ func Harness_C14_concurrent() {
 		vAssert(svc.FixLogLeaf(ctx, leaf) == nil && bytes.Equal(leaf.ExtraData, direct[i].ExtraData), "once stored, every read is served the default mode's bytes (whatever was evicted)")
 	}
 }
+
+// c14FlakyStore fails its first insert (after the scheduling point, i.e. possibly while another
+// submission of the same chain is under way) and works afterwards.
+type c14FlakyStore struct {
+	c14LockedStore
+	adds int
+}
+
+func (s *c14FlakyStore) Add(ctx context.Context, key, chain []byte) error {
+	s.mu.Lock()
+	s.adds++
+	first := s.adds == 1
+	s.mu.Unlock()
+	vSched("store add")
+	if first {
+		vSched("store add fails")
+		return errors.New("storage down")
+	}
+	s.mu.Lock()
+	defer s.mu.Unlock()
+	if _, ok := s.m[string(key)]; !ok {
+		s.m[string(key)] = chain
+	}
+	return nil
+}
+
+// Harness_C14_concurrentWriters: two submissions with the same issuance chain run concurrently
+// and the store's first insert fails: on every interleaving within the delay bound an accepted
+// submission is resolvable from the store alone (whatever the cache holds), with the default
+// mode's bytes; the other one is either accepted likewise or refused.
+//
+//verif:opt sched=1 race=1 preempt=2 thorough.preempt=3 maxpaths=400000 decisions=8000 steps=40000000 reach=accepted,refused
+func Harness_C14_concurrentWriters() {
+	ctx := context.Background()
+	issuer := []byte{0xa1}
+	leaves := [2][]byte{{0x11}, {0x12}}
+	precert := vChoice("precert", 2) == 1
+	store := &c14FlakyStore{}
+	store.m = map[string][]byte{}
+	svc := newIndirectIssuanceChainService(store, lru.NewIssuanceChainCache(lru.CacheOption{Size: 4, TTL: time.Hour}))
+	var wg sync.WaitGroup
+	var got [2]*trillian.LogLeaf
+	var errs [2]error
+	for i := 0; i < 2; i++ {
+		i := i
+		wg.Add(1)
+		go func() {
+			defer wg.Done()
+			ch := []*x509.Certificate{{Raw: leaves[i]}, {Raw: issuer}}
+			ml := ct.CreateX509MerkleTreeLeaf(ct.ASN1Cert{Data: leaves[i]}, 7)
+			got[i], errs[i] = svc.BuildLogLeaf(ctx, ch, "t", ml, precert)
+		}()
+	}
+	wg.Wait()
+	vYield() // detached cache fills
+	vAssert(errs[0] != nil || errs[1] != nil, "the submission whose store write failed is refused")
+	for i := 0; i < 2; i++ {
+		if errs[i] != nil {
+			vReach("refused")
+			continue
+		}
+		vReach("accepted")
+		ch := []*x509.Certificate{{Raw: leaves[i]}, {Raw: issuer}}
+		ml := ct.CreateX509MerkleTreeLeaf(ct.ASN1Cert{Data: leaves[i]}, 7)
+		direct, derr := (&directIssuanceChainService{}).BuildLogLeaf(ctx, ch, "t", ml, precert)
+		vAssert(derr == nil, "direct mode builds the leaf")
+		// a reader on another instance (cold cache) resolves the stored reference
+		cold := newIndirectIssuanceChainService(store, lru.NewIssuanceChainCache(lru.CacheOption{Size: 4, TTL: time.Hour}))
+		leaf := &trillian.LogLeaf{LeafValue: got[i].LeafValue, ExtraData: append([]byte{}, got[i].ExtraData...)}
+		vAssert(cold.FixLogLeaf(ctx, leaf) == nil && bytes.Equal(leaf.ExtraData, direct.ExtraData), "an accepted submission is readable from the store alone, with the default mode's bytes")
+	}
+}
